@@ -53,6 +53,7 @@ def run(ctx):
     ctx.assumptions += ["derive(Encode)/derive(Decode) of minicbor generate symmetric code for the same attribute text"]
 
     order_rule(ctx, syn)
+    write_rule(ctx)
     r_both = ctx.rule("C11.BOTH", "every type that derives or implements Encode also derives or implements Decode and vice versa")
     r_idx = ctx.rule("C11.IDX", "every field/variant of an encoded type has a distinct index or is in the skip list")
     r_skip = ctx.rule("C11.SKIP", "#[cbor(skip)] only on the frozen list of run-time dirty flags (indices are stored, not rebuilt)")
@@ -405,3 +406,49 @@ def order_rule(ctx, syn):
                 if params and not re.fullmatch(r"%s(\.iter\(\))?" % re.escape(params[0]), it):
                     ctx.report(r, "%s|iterates:%s" % (f.name, re.sub(r"\W+", "_", it)[:30]), "%s encodes the items of `%s`, not of the collection it was given (`%s`)" % (f.name, it, params[0]), f.file, lp.get("l"))
     ctx.floor(r, n, 4, "custom CBOR helpers")
+
+
+# ---------------------------------------------------------------------- WRITE
+WRITE_CHAIN = [
+    # (function, what every successful path must pass through, description)
+    (r"^annotationstore::AnnotationStore::to_file$", r"annotationstore::AnnotationStore::save$", "AnnotationStore::save"),
+    (r"^annotationstore::AnnotationStore::save$", r"(::to_json_file|::to_cbor_file|::to_csv_files)$", "one of the format writers (to_json_file / to_cbor_file / to_csv_files)"),
+    (r"^annotationstore::AnnotationStore::to_cbor_file$", r"^minicbor::encode$", "minicbor::encode"),
+]
+
+
+def write_rule(ctx):
+    """`the store I wrote is the store I read` presupposes that a write that reports success wrote: to_file -> save ->
+    to_cbor_file -> minicbor::encode, on every path that does not end in an error.  (The change markers are all
+    #[cbor(skip)] and only track some kinds of change; 'nothing to do' is not something these functions can know.)"""
+    import mirq
+    r = ctx.rule("C11.WRITE", "every path through to_file, save and to_cbor_file that does not return an error passes through the next writer in the chain, down to minicbor::encode of the store")
+    prog = mirq.Program(ctx.facts.mir())
+    n = 0
+    for pat, through, desc in WRITE_CHAIN:
+        bs = prog.find_bodies(pat)
+        if len(bs) != 1:
+            ctx.anchor_missing(r, pat)
+            continue
+        b = bs[0]
+        n += 1
+        ctx.functions_analysed.add(b.id)
+        thr = set(bi for bi, t in b.calls() if re.search(through, mirq.callee_of(t)[0] or ""))
+        errs = set(bi for bi, blk in enumerate(b.blocks) if any((s_.get("rv") or {}).get("r") == "agg" and (s_["rv"].get("variant") == "Err") and s_["p"]["l"] == 0 and not s_["p"]["p"] for s_ in blk["s"]))
+        errs |= set(bi for bi, t in b.calls() if (mirq.callee_of(t)[0] or "").endswith("FromResidual::from_residual"))
+        rets = [bi for bi, blk in enumerate(b.blocks) if blk["t"]["t"] == "return"]
+        avoid_ = thr | errs
+        bypass = not thr or any(rt == 0 or b.can_reach(0, rt, avoid=avoid_) for rt in rets if 0 not in avoid_)
+        r.hit(b.id, sample={"fn": b.id, "must_pass": desc, "sites": len(thr), "bypass": bool(bypass)})
+        if bypass:
+            ctx.report(r, "%s|bypass" % mirq.short_fn(b.id), "%s can return success without going through %s: a write that is skipped (an 'up to date' shortcut, a format without a writer) leaves the previous generation of the store on disk while the caller is told it was saved" % (b.id, desc), b.file, b.line)
+        if pat.endswith("to_cbor_file$"):
+            # what is encoded is the store itself
+            for bi in thr:
+                t = b.blocks[bi]["t"]
+                prov = b.provenance(t["args"][0]) if t.get("args") else ""
+                key0 = b.key_of_operand(t["args"][0]) if t.get("args") else "?"
+                r.hit("encode-arg", sample={"encoded": key0})
+                if not re.search(r"\bself\b|_1\b", str(key0) + " " + str(prov)):
+                    ctx.report(r, "to_cbor_file|encodes-other", "to_cbor_file encodes `%s`, not the store it was called on" % key0, b.file, t.get("line"))
+    ctx.floor(r, n, 3, "functions of the write chain")
